@@ -95,7 +95,8 @@ def run(ctx) -> None:
         ("C01.R7-lock", "scheduling decisions and finishedCheck state inspection run under comp_lock"),
         ("C01.R9-final-states-not-overwritten", "the controller assigns a final controllerState directly (bypassing finish()) only for the stages "
                                                 "a restart skipped: the loop is bounded by the stage the run started from, an attribute written "
-                                                "only on the first initialise"),
+                                                "only on the first initialise; ComponentState.finish assigns a final state only to a component "
+                                                "that has none yet (C02.R12's obligation)"),
         ("C01.R10-one-shot-iterators-read-once", "in the controller a local bound to a one-shot iterator (graph.predecessors(..), map/filter/zip, a "
                                                  "generator expression) is consumed at most once per binding on every path: a second reader - "
                                                  "the scheduling rules themselves, after a log statement sorted() it - sees no producers at all"),
@@ -548,6 +549,24 @@ def _check_no_state_overwrite(ctx, ctl) -> None:
                    "are launched" % (q, short(bound, 40), why),
                    construct="%s: direct final-state marking bounded by the starting stage" % q)
     ctx.floor(rule, n_sites, 1, "loops that assign a final controllerState directly in the controller")
+    # ... and finish() itself never replaces a final state: the scheduler launches an aggregating consumer over a SHUTDOWN producer; if a
+    # later finish(FAILED) may still turn that producer FAILED (seed C01-13: 'a stopped component keeps the more accurate verdict') the
+    # consumer that is already running consumes from a failed producer.  The obligation is C02.R12's.
+    from checks import c02
+    from vlib.report import Ctx as _Ctx
+    sub = _Ctx("C02", ctx.tier, ctx.repo)
+    c02.check_finish_handshake(sub, ctx.repo.module(WORKFLOW))
+    n12 = 0
+    for o in sub.obligations:
+        if o["rule"] == "C02.R12-one-final-state":
+            o2 = dict(o)
+            o2["rule"] = rule
+            o2["what"] = "[%s] %s" % (o["rule"], o["what"]) + ("" if o["ok"] else
+                          " - a producer the scheduler saw SHUTDOWN (and launched an aggregating consumer over) can become FAILED afterwards")
+            ctx.obligations.append(o2)
+            n12 += 1
+    ctx.functions_analysed |= sub.functions_analysed
+    ctx.require(n12 >= 1, "anchor missing: the one-final-state obligations of C02.R12 on ComponentState.finish")
 
 
 def _classify_subject_return(e: ast.AST) -> str:
